@@ -3950,16 +3950,25 @@ def check_C20(ctx: Ctx) -> None:
     for i in range(ctx.n(300, 3000)):
         cls = r.choice("TQG")
         pd = r.choice([0, 4, 4])
-        o = Opts(fs=r.choice([1, 2, 5, 250]), lt=0, gen=True, star=True, delim=True, pn=16, pp=r.choice([0, 4]), pd=pd)
+        # every third case: a long history on small tables that are full and recycling their indices, with rejections that
+        # come after the statement has already assigned entries (what a roll-back of the tables would have to undo exactly:
+        # the entries, the evicted ones, and BOTH delta bases)
+        recycling = i % 3 == 2
+        if recycling:
+            pd = r.choice([0, 2])
+            o = Opts(fs=r.choice([1, 5, 250]), lt=0, gen=True, star=True, delim=True, pn=8, pp=r.choice([2, 3]), pd=pd)
+        else:
+            o = Opts(fs=r.choice([1, 2, 5, 250]), lt=0, gen=True, star=True, delim=True, pn=16, pp=r.choice([0, 4]), pd=pd)
         integ = "rdflib" if i % 4 == 3 else "generic"
+        npf, nnm = (6, 10) if recycling else (3, 5)
         if integ == "rdflib":
             # the rdflib serializer driven statement by statement with rdflib terms (RDF 1.1 content; no quoted triples)
             o.gen = o.star = False
-            g = gen.G(r, typed=pd != 0, n_prefixes=3, n_names=5, star=False, generalized=False, case_langs=False)
+            g = gen.G(r, typed=pd != 0, n_prefixes=npf, n_names=nnm, star=False, generalized=False, case_langs=False)
             g.bnode = lambda: BlankNode(r.choice(["b0", "b1", "n1"]))
         else:
-            g = gen.G(r, typed=pd != 0, n_prefixes=3, n_names=5)
-        n = r.randint(2, 8)
+            g = gen.G(r, typed=pd != 0, n_prefixes=npf, n_names=nnm)
+        n = r.randint(10, 20) if recycling else r.randint(2, 8)
         ops, accepted = [("enroll",)], []
         prev = None
         last_rejected = None
@@ -3976,13 +3985,15 @@ def check_C20(ctx: Ctx) -> None:
                 st[2] = Literal(r.choice(["x", "y", "z"]), langtag=r.choice([None, "en"]))
             last_rejected = None
             orig = list(st)
-            bad = r.random() < 0.35
+            bad = r.random() < (0.12 if recycling else 0.35)
             cause = None
             if bad:
                 cause = r.choice(["unsupported", "typed_disabled", "short"]) if pd == 0 else r.choice(["unsupported", "short", "nested"])
                 if integ == "rdflib" and cause == "nested":
                     cause = "unsupported"
-                slot = r.randrange(len(st))
+                if recycling and cause == "short":
+                    cause = "unsupported"
+                slot = r.randrange(1, len(st)) if recycling else r.randrange(len(st))
                 if cause == "unsupported":
                     st[slot] = UNSUPPORTED
                 elif cause == "typed_disabled":
